@@ -8,6 +8,12 @@ pub fn read_type(src: &mut &[u8]) -> Result<Option<Type>, DecodeError> {
     let mut len = usize::from(encoding >> 4);
 
     if len == 0x0f {
+        // The length is a typed integer scalar. Its own descriptor must not ask for another
+        // length value: `read_value` would call back into `read_type` once per such byte.
+        if src.first().is_some_and(|b| b >> 4 == 0x0f) {
+            return Err(DecodeError::InvalidLengthValue);
+        }
+
         let value = read_value(src).map_err(|e| DecodeError::InvalidValue(Box::new(e)))?;
 
         len = match value.and_then(|v| v.as_int()) {
@@ -102,5 +108,13 @@ mod tests {
 
         let mut src = &[0x14][..];
         assert_eq!(read_type(&mut src), Err(DecodeError::InvalidType(4)));
+
+        // 0xf1 = (len >= 15, Int8); each one used to add two stack frames
+        let data = vec![0xf1; 1 << 20];
+        let mut src = &data[..];
+        assert_eq!(read_type(&mut src), Err(DecodeError::InvalidLengthValue));
+
+        let mut src = &[0xf1, 0xf1, 0x11, 0x01, 0x05][..];
+        assert_eq!(read_type(&mut src), Err(DecodeError::InvalidLengthValue));
     }
 }
